@@ -72,6 +72,12 @@ func runC11(c *Ctx) {
 				}
 				if wc, ok := v.(*ssa.Call); ok {
 					// the wrap moved into a helper: cur = wrap(cur + amount)
+					if callee := wc.Call.StaticCallee(); callee != nil && isWrapHelper(callee, size) && len(wc.Call.Args) == 3 {
+						if loadOfField(wc.Call.Args[1], cur) != loadOfField(wc.Call.Args[2], cur) {
+							c.ok(fn, what, st.Pos(), "advance wrapped by "+callee.Name())
+							continue
+						}
+					}
 					if callee := wc.Call.StaticCallee(); callee != nil && isWrapHelper(callee, size) && len(wc.Call.Args) == 2 {
 						if add, ok := stripConv(wc.Call.Args[1]).(*ssa.BinOp); ok && add.Op == token.ADD && (loadOfField(add.X, cur) || loadOfField(add.Y, cur)) {
 							c.ok(fn, what, st.Pos(), "advance wrapped by "+callee.Name())
@@ -235,6 +241,13 @@ func runC11(c *Ctx) {
 			}
 			if inc, ok := incrementOf(v, spec.cur); ok && stripConv(inc) == am {
 				curOK = true
+			}
+			// cur = advance(cur, amount)
+			if wc, ok := v.(*ssa.Call); ok && wc.Call.StaticCallee() != nil && isWrapHelper(wc.Call.StaticCallee(), size) && len(wc.Call.Args) == 3 {
+				a1, a2 := stripConv(wc.Call.Args[1]), stripConv(wc.Call.Args[2])
+				if (loadOfField(a1, spec.cur) && a2 == am) || (loadOfField(a2, spec.cur) && a1 == am) {
+					curOK = true
+				}
 			}
 		}
 		retOK := false
@@ -470,16 +483,40 @@ func sameCellLoad(a, b ssa.Value) bool {
 
 // isWrapHelper: f(index) returns index when index < size and index - size otherwise (or index % size).
 func isWrapHelper(f *ssa.Function, size *types.Var) bool {
-	if f.Blocks == nil || len(f.Params) != 2 {
+	if f.Blocks == nil {
 		return false
 	}
-	prm := f.Params[1]
+	if len(f.Params) == 3 {
+		return isAdvanceHelper(f, size)
+	}
+	if len(f.Params) != 2 {
+		return false
+	}
+	return wrapsValue(f, f.Params[1], size)
+}
+
+// isAdvanceHelper: f(recv, pos, n) returns pos+n wrapped at size.
+func isAdvanceHelper(f *ssa.Function, size *types.Var) bool {
+	var sum ssa.Value
+	eachInstr(f, func(in ssa.Instruction) {
+		if bo, ok := in.(*ssa.BinOp); ok && bo.Op == token.ADD {
+			x, y := stripConv(bo.X), stripConv(bo.Y)
+			if (x == ssa.Value(f.Params[1]) && y == ssa.Value(f.Params[2])) || (x == ssa.Value(f.Params[2]) && y == ssa.Value(f.Params[1])) {
+				sum = bo
+			}
+		}
+	})
+	return sum != nil && wrapsValue(f, sum, size)
+}
+
+// wrapsValue: the single result of f is prm wrapped at size (prm % size, or prm when prm < size and prm - size otherwise).
+func wrapsValue(f *ssa.Function, prm ssa.Value, size *types.Var) bool {
 	rets := returnsOf(f)
 	if len(rets) != 1 || len(rets[0].Results) != 1 {
 		return false
 	}
 	v := stripConv(rets[0].Results[0])
-	if bo, ok := v.(*ssa.BinOp); ok && bo.Op == token.REM && stripConv(bo.X) == ssa.Value(prm) && loadOfField(bo.Y, size) {
+	if bo, ok := v.(*ssa.BinOp); ok && bo.Op == token.REM && stripConv(bo.X) == prm && loadOfField(bo.Y, size) {
 		return true
 	}
 	ph, ok := v.(*ssa.Phi)
@@ -490,18 +527,18 @@ func isWrapHelper(f *ssa.Function, size *types.Var) bool {
 	for i, e := range ph.Edges {
 		e = stripConv(e)
 		ls := litsAt(ph.Block(), ph.Block().Preds[i])
-		if e == ssa.Value(prm) {
+		if e == prm {
 			for _, l := range ls {
-				op, x, y, ok := l.cmp()
-				if ok && op == token.LSS && stripConv(x) == ssa.Value(prm) && loadOfField(y, size) {
+				op, x, y, ok := l.cmpWith(prm)
+				if ok && op == token.LSS && stripConv(x) == prm && loadOfField(y, size) {
 					same = true
 				}
 			}
 		}
-		if bo, ok := e.(*ssa.BinOp); ok && bo.Op == token.SUB && stripConv(bo.X) == ssa.Value(prm) && loadOfField(bo.Y, size) {
+		if bo, ok := e.(*ssa.BinOp); ok && bo.Op == token.SUB && stripConv(bo.X) == prm && loadOfField(bo.Y, size) {
 			for _, l := range ls {
-				op, x, y, ok := l.cmp()
-				if ok && op == token.GEQ && stripConv(x) == ssa.Value(prm) && loadOfField(y, size) {
+				op, x, y, ok := l.cmpWith(prm)
+				if ok && op == token.GEQ && stripConv(x) == prm && loadOfField(y, size) {
 					sub = true
 				}
 			}
